@@ -307,6 +307,14 @@ fn gen_sync(case: usize, mut r: Rng, w: &mut dyn Write, merge: bool) {
     g.line(&format!("delay m2o {a}"));
     g.line(&format!("delay o2m {pb}"));
     let noise = g.r.chance(1, 3);
+    // a user request already in flight: the synchronisation waits in the queue for one round trip; the clock /
+    // instant it uses must be the one at which ITS request is sent, not the one at which it was queued (S140)
+    let busy = matches!(kind, "lan" | "nonlan" | "direct") && g.r.chance(1, 4);
+    if busy {
+        let id = g.next_uid();
+        let cls = *g.r.pick(&[8u8, 15, 7]);
+        g.line(&format!("read {id} {cls}"));
+    }
     // start
     match kind {
         "auto_lan" | "auto_nonlan" => {
@@ -338,7 +346,7 @@ fn gen_sync(case: usize, mut r: Rng, w: &mut dyn Write, merge: bool) {
     let clear_early = g.r.chance(2, 3);
     // run the exchange in steps so that the WRITE's delay can differ from the request's
     let mut steps: Vec<u64> = Vec::new();
-    if kind.starts_with("auto") {
+    if kind.starts_with("auto") || busy {
         // the read first (a + pb), then the procedure
         steps.push(a);
         steps.push(pb);
